@@ -59,8 +59,11 @@ func NewOrderedPartition(n, m int, vertexClasses [][]int) *CanonicalOrderedParti
 	for i := range binAges {
 		binAges[i] = 0
 	}
-	binsToCheck := make([]int, 1, n)
-	binsToCheck[0] = 0
+	//Every initial bin can shatter the other bins so they all need to be checked.
+	binsToCheck := make([]int, len(binDividers), n)
+	for i := range binsToCheck {
+		binsToCheck[i] = i
+	}
 	value := make([]int, 0, m)
 	return &CanonicalOrderedPartition{order: order, binDividers: binDividers, binAges: binAges, binsToCheck: binsToCheck, value: value, inCell: inCell}
 }
@@ -111,8 +114,11 @@ func (op *CanonicalOrderedPartition) Reset(n, m int, vertexClasses [][]int) {
 	}
 
 	if n > 0 {
-		op.binsToCheck = op.binsToCheck[:1]
-		op.binsToCheck[0] = 0
+		//Every initial bin can shatter the other bins so they all need to be checked.
+		op.binsToCheck = op.binsToCheck[:len(op.binDividers)]
+		for i := range op.binsToCheck {
+			op.binsToCheck[i] = i
+		}
 	}
 
 	op.value = op.value[:0]
